@@ -407,7 +407,7 @@ func (m *Model) extractPratt() *prattModel {
 		return pm
 	}
 	// the dynamic call of the looked-up infix function, and the branch facts that dominate it
-	var infixCall *ssa.Call
+	var infixCall, infixHelper *ssa.Call
 	for _, hf := range m.helpersOf(pe) {
 		for _, b := range hf.Blocks {
 			for _, in := range b.Instrs {
@@ -422,6 +422,39 @@ func (m *Model) extractPratt() *prattModel {
 				if lk, isLk := v.(*ssa.Lookup); isLk {
 					if _, p, ok := pathOf(lk.X); ok && p == ".infixParseFns" {
 						infixCall = c
+					}
+				}
+				// the function comes out of a helper that answers nil ("the expression ends here") or the entry of the
+				// infix table for the next token
+				if hc, isHC := v.(*ssa.Call); isHC && hc.Call.StaticCallee() != nil && m.InModule(hc.Call.StaticCallee()) && hc.Call.StaticCallee().Blocks != nil {
+					okAll, n := true, 0
+					for _, hb := range hc.Call.StaticCallee().Blocks {
+						r, isR := hb.Instrs[len(hb.Instrs)-1].(*ssa.Return)
+						if !isR || len(r.Results) != 1 {
+							continue
+						}
+						if isNilConst(r.Results[0]) {
+							continue
+						}
+						rv := r.Results[0]
+						if ex, isEx := rv.(*ssa.Extract); isEx {
+							rv = ex.Tuple
+						}
+						lk, isLk := rv.(*ssa.Lookup)
+						if !isLk {
+							okAll = false
+							continue
+						}
+						if _, p, ok := pathOf(lk.X); !ok || p != ".infixParseFns" {
+							okAll = false
+						}
+						if _, p, ok := pathOf(lk.Index); !ok || !strings.HasSuffix(p, ".peekToken.Type") {
+							okAll = false
+						}
+						n++
+					}
+					if okAll && n > 0 {
+						infixCall, infixHelper = c, hc
 					}
 				}
 				if c == semInfixCall {
@@ -544,6 +577,98 @@ func (m *Model) extractPratt() *prattModel {
 			}
 			bo, ok := f.Cond.(*ssa.BinOp)
 			if !ok || len(pe.Params) != 2 {
+				continue
+			}
+			// `infix := helper(precedence); if infix == nil { return left }`: the helper is evaluated with the binding
+			// power as a named unknown P and a peek token of known precedence q, once with its comparison of P taken
+			// as true and once as false; the side on which it answers the table's entry is the loop condition
+			if infixHelper != nil && (bo.Op == token.NEQ || bo.Op == token.EQL) && (bo.X == ssa.Value(infixHelper) && isNilConst(bo.Y) || bo.Y == ssa.Value(infixHelper) && isNilConst(bo.X)) && (bo.Op == token.NEQ) == f.Holds {
+				callee := infixHelper.Call.StaticCallee()
+				args := make([]any, len(infixHelper.Call.Args))
+				pIdx := -1
+				for i, a := range infixHelper.Call.Args {
+					args[i] = iObj{"parser"}
+					if isPrecParam(a) {
+						pIdx = i
+						args[i] = iSym{name: "P"}
+					}
+				}
+				if pIdx < 0 || len(args) != len(callee.Params) {
+					continue
+				}
+				var tvs []int64
+				for tv := range pm.precPeek {
+					tvs = append(tvs, tv)
+				}
+				sort.Slice(tvs, func(i, j int) bool { return tvs[i] < tvs[j] })
+				var got token.Token
+				consistent, seen := true, 0
+				for _, tv := range tvs {
+					q := pm.precPeek[tv]
+					var answers [2]string
+					var symSeen *iSym
+					nSym := 0
+					for side := 0; side < 2; side++ {
+						ip := m.parserInterp(-1, tv, pm.precLit, func(string, int64) bool { return true })
+						ip.branch = func(cond iSym, _ *ssa.If) (bool, bool) {
+							c := cond
+							symSeen = &c
+							nSym++
+							return side == 0, true
+						}
+						res, ok := ip.Run(callee, args)
+						switch res.(type) {
+						case iNil:
+							answers[side] = "nil"
+						case iFn, *iClosure:
+							answers[side] = "fn"
+						default:
+							if !ok {
+								answers[side] = "?"
+							} else {
+								answers[side] = "?"
+							}
+						}
+					}
+					if symSeen == nil {
+						continue // a stop token, or LOWEST: decided without looking at P
+					}
+					if nSym != 2 || answers[0] == answers[1] || answers[0] == "?" || answers[1] == "?" {
+						consistent = false
+						break
+					}
+					sym := *symSeen
+					op := token.ILLEGAL
+					xs, xIsSym := sym.x.(iSym)
+					ys, yIsSym := sym.y.(iSym)
+					xc, xIsC := sym.x.(constant.Value)
+					yc, yIsC := sym.y.(constant.Value)
+					switch {
+					case xIsSym && xs.name == "P" && yIsC:
+						if v, _ := constant.Int64Val(yc); v == q {
+							op = sym.op
+						}
+					case yIsSym && ys.name == "P" && xIsC:
+						if v, _ := constant.Int64Val(xc); v == q {
+							op = flip[sym.op]
+						}
+					}
+					if op == token.ILLEGAL {
+						consistent = false
+						break
+					}
+					if answers[0] == "nil" { // the comparison holding ends the expression: the loop goes on under its negation
+						op = negate[op]
+					}
+					if seen > 0 && op != got {
+						consistent = false
+						break
+					}
+					got, seen = op, seen+1
+				}
+				if consistent && seen > 0 {
+					pm.cmpOp = got
+				}
 				continue
 			}
 			op := token.ILLEGAL
@@ -1330,6 +1455,79 @@ func (m *Model) RunPratt(s *Sink, rule string) {
 				continue
 			}
 			s.OK(rule, key, m.Pos(h.fn.Pos()), "shape %s, binding powers %v", h.shape, bps)
+		}
+	}
+	// an operator's parse function returns the node it builds — not one of its operands (`-(-x)` folded to x at parse
+	// time drops two operators with their type checks)
+	{
+		seenFn := map[*ssa.Function]bool{}
+		for _, tab := range []map[string]*handler{pm.prefix, pm.infix} {
+			var ks []string
+			for k := range tab {
+				ks = append(ks, k)
+			}
+			sort.Strings(ks)
+			for _, k := range ks {
+				h := tab[k]
+				switch h.shape {
+				case "binary", "prefixop", "ternary", "index", "postfix":
+				default:
+					continue
+				}
+				if seenFn[h.fn] || h.fn.Blocks == nil {
+					continue
+				}
+				seenFn[h.fn] = true
+				key := fnKey(h.fn) + "|returns the node it builds, not an operand"
+				bad := ""
+				var operand func(v ssa.Value, d int) string
+				operand = func(v ssa.Value, d int) string {
+					if d > 4 {
+						return ""
+					}
+					switch x := v.(type) {
+					case *ssa.MakeInterface:
+						return operand(x.X, d+1)
+					case *ssa.ChangeInterface:
+						return operand(x.X, d+1)
+					case *ssa.Phi:
+						for _, e := range x.Edges {
+							if w := operand(e, d+1); w != "" {
+								return w
+							}
+						}
+					case *ssa.Parameter:
+						if len(h.fn.Params) == 2 && x == h.fn.Params[1] {
+							return "its left operand"
+						}
+					case *ssa.Call:
+						if sc := x.Call.StaticCallee(); sc != nil && canonFnName(sc) == "parseExpression" {
+							return "the operand it has just parsed"
+						}
+					case *ssa.UnOp:
+						if fa, isFA := x.X.(*ssa.FieldAddr); isFA && x.Op == token.MUL {
+							if nt := ptrNamed(fa.X.Type()); nt != nil && nt.Obj().Pkg() != nil && shortPkg(nt.Obj().Pkg().Path()) == "ast" {
+								if _, isExpr := x.Type().Underlying().(*types.Interface); isExpr {
+									return "a part of a node (" + valueDesc(x) + ")"
+								}
+							}
+						}
+					}
+					return ""
+				}
+				for _, b := range h.fn.Blocks {
+					if r, ok := b.Instrs[len(b.Instrs)-1].(*ssa.Return); ok && len(r.Results) == 1 && bad == "" {
+						if w := operand(r.Results[0], 0); w != "" {
+							bad = w + " at " + m.InstrPos(r)
+						}
+					}
+				}
+				if bad == "" {
+					s.OK(rule, key, m.Pos(h.fn.Pos()), "no return hands back the left operand, a freshly parsed operand or a part of a node")
+				} else {
+					s.Violation(rule, key, m.Pos(h.fn.Pos()), "%s returns %s instead of the node of its operator: the operator is dropped from the tree, with its type checks and its value (`!!x` is 0 or 1, not x; `- -s` of a string is an error)", fnKey(h.fn), bad)
+				}
+			}
 		}
 	}
 	// loop comparison
